@@ -4,7 +4,10 @@
    and of what correlation/measurements.py:autocorrelate / crosscorrelate do to the cache
    (unforced builds: reference role with the configuration's edges + closed side, unknown
    role unbinned).  Catalog(cache) / Patch(cache_path) keep no tree state in memory, every
-   decision is taken from the two files `binning` and `trees.pkl`. *)
+   decision is taken from the two files `binning` and `trees.pkl`.  The last part of the file
+   makes "in memory" explicit: operations are executed by the measuring process itself or by
+   forked processes (multiprocessing pool workers, a child process), and a process may or may
+   not keep unpickled trees between operations (the implementation keeps nothing). *)
 From Verif Require Import Prelude.
 Open Scope Q_scope.
 
@@ -285,3 +288,122 @@ Definition c07_ccase (ch : list cop) (zss : list (list Q)) (observed : list (lis
          | None => true
          | Some b => opt_eqb ob_eqb (cop_request (last ch (All Reopen))) (Some b)
          end ].
+
+(* ---------- processes: who executes an operation, and what a process remembers ---------- *)
+(* Self  = the long-lived measuring process executes the operation itself (max_workers = 1);
+   Pool  = max_workers >= 2: the builds run in multiprocessing.Pool workers forked from the
+           measuring process, the pair counting afterwards in a second set of workers forked from
+           it (they start with a copy of the PARENT's memory, not of the building workers');
+   Child = the whole call runs in one child process forked from the measuring process.
+   Whatever a forked process remembers is gone when it exits; the parent's memory is untouched. *)
+Inductive exec : Type := Self | Pool | Child.
+
+(* what a process keeps of a patch's unpickled trees between operations.
+   NoMemo            : nothing; every BinnedTrees(patch).trees access unpickles trees.pkl (the code).
+   MemoOwnInvalidate : keep what was unpickled and serve later accesses from memory; forget it when
+                       THIS process rebuilds the patch's trees (a broken variant: a rebuild done by
+                       another process is not noticed). *)
+Inductive policy : Type := NoMemo | MemoOwnInvalidate.
+
+(* one patch as the measuring process sees it: the two files, and the trees it holds in memory *)
+Record pst : Type := { disk : st; mem : option tag }.
+Definition p_fresh : pst := {| disk := s_fresh; mem := None |}.
+
+(* does BinnedTrees.build take the rebuild branch for this operation on this cache state *)
+Definition rebuilds (s : st) (o : op) : bool :=
+  match o, op_request o with
+  | _, None => false
+  | Build _ true, Some _ => true
+  | _, Some b => match bfile s with
+                 | None => true
+                 | Some stored => negb (binning_equal stored b)
+                 end
+  end.
+(* does the operation unpickle the trees (pair counting does, a build does not) *)
+Definition reads (o : op) : bool :=
+  match o with Measure c _ => valid_edges (c_edges c) | _ => false end.
+
+(* BinnedTrees(patch).trees in a process whose memory holds m, on cache state s
+   (BinnedTrees(patch) raises FileNotFoundError without a binning file) *)
+Definition load (pol : policy) (m : option tag) (s : st) : option tag :=
+  match bfile s with
+  | None => None
+  | Some _ => match pol, m with
+              | MemoOwnInvalidate, Some t => Some t
+              | _, _ => tfile s
+              end
+  end.
+Definition keep (pol : policy) (got m : option tag) : option tag :=
+  match pol with
+  | NoMemo => None
+  | MemoOwnInvalidate => match got with Some t => Some t | None => m end
+  end.
+
+(* a step of a labelled history *)
+Inductive pop : Type :=
+| Do (x : exec) (o : op)   (* an operation and who executes it *)
+| Peek.                    (* the measuring process accesses BinnedTrees(patch).trees *)
+
+(* new state of the measuring process + the trees the step worked with (None: it unpickled none) *)
+Definition pstep (pol : policy) (ps : pst) (a : pop) : pst * option tag :=
+  match a with
+  | Peek => let got := load pol (mem ps) (disk ps) in
+            ({| disk := disk ps; mem := keep pol got (mem ps) |}, got)
+  | Do x o =>
+      let m0 := mem ps in                                      (* forked processes start with the parent's memory *)
+      let m1 := if rebuilds (disk ps) o then None else m0 in   (* invalidation happens in the process that rebuilds *)
+      let d := step (disk ps) o in
+      let mr := match x with Pool => m0 | _ => m1 end in       (* memory of the process that counts pairs *)
+      let got := if reads o then load pol mr d else None in
+      let m2 := if reads o then keep pol got m1 else match pol with NoMemo => None | _ => m1 end in
+      ({| disk := d; mem := match x with Self => m2 | _ => m0 end |}, got)
+  end.
+
+Definition prun (pol : policy) (h : list pop) (ps : pst) : pst * option tag :=
+  fold_left (fun acc a => pstep pol (fst acc) a) h (ps, None).
+(* the trees the LAST step of h worked with *)
+Definition pused (pol : policy) (h : list pop) (ps : pst) : option tag := snd (prun pol h ps).
+
+Fixpoint ptrace (pol : policy) (h : list pop) (ps : pst) : list (pst * option tag) :=
+  match h with
+  | [] => []
+  | a :: r => let y := pstep pol ps a in y :: ptrace pol r (fst y)
+  end.
+
+Definition erase (a : pop) : op := match a with Do _ o => o | Peek => Reopen end.
+Definition all_self (h : list pop) : bool :=
+  forallb (fun a => match a with Do Self _ | Peek => true | _ => false end) h.
+Definition all_forked (h : list pop) : bool :=
+  forallb (fun a => match a with Do Pool _ | Do Child _ => true | _ => false end) h.
+
+(* ---------- labelled catalog-level histories and their checker ---------- *)
+Inductive pcop : Type :=
+| CDo (x : exec) (o : cop)
+| CPeek.                     (* BinnedTrees(p).trees for every patch p of the catalog, in the measuring process *)
+Definition erase_c (a : pcop) : cop := match a with CDo _ o => o | CPeek => All Reopen end.
+Definition pproj (p : nat) (a : pcop) : pop :=
+  match a with CDo x o => Do x (proj p o) | CPeek => Peek end.
+Definition is_peek (a : pcop) : bool := match a with CPeek => true | _ => false end.
+
+(* what a peek returned for one patch: None = FileNotFoundError, else is-a-tuple + records per tree *)
+Definition lobs : Type := option (bool * list nat).
+
+(* patch p: every Peek of the history returned what the process model (the code's policy: no
+   memory) says it returns; rows of non-Peek steps are ignored *)
+Definition peeks_agree_patch (ph : list pcop) (p : nat) (zs : list Q) (loaded : list (list lobs)) : bool :=
+  forallb2 (fun ay row =>
+              if is_peek (fst ay)
+              then opt_eqb tc_eqb (option_map (fun t => tree_counts t zs) (snd (snd ay))) (nth p row None)
+              else true)
+           (combine ph (ptrace NoMemo (map (pproj p) ph) p_fresh)) loaded.
+Definition peeks_agree (ph : list pcop) (zss : list (list Q)) (loaded : list (list lobs)) : bool :=
+  forallb (fun p => peeks_agree_patch ph p (nth p zss []) loaded) (seq 0 (length zss)).
+
+(* ph: the labelled operations one catalog went through, starting from a freshly created cache;
+   zss, observed, final: as in c07_ccase (the files after every step do not depend on who executed
+   it); loaded: for every step one row, for a CPeek what every patch's accessor returned.
+   bits 0..2 = c07_ccase on the history without its labels, bit 3 = the peeks *)
+Definition c07_pcase (ph : list pcop) (zss : list (list Q)) (observed : list (list obs))
+           (loaded : list (list lobs)) (final : option obinning) : nat :=
+  (c07_ccase (map erase_c ph) zss observed final
+   + (if (length loaded =? length ph)%nat && peeks_agree ph zss loaded then 0 else 8))%nat.
